@@ -41,7 +41,7 @@ Qed.
 Theorem canon_of_perm (X Y : sparse V) : wf X -> wf Y -> sshape X = sshape Y ->
   Permutation (entries X) (entries Y) -> canon X = canon Y.
 Proof.
-  intros WX WY Hs HP. apply canon_eq; auto. intros i _. apply den_perm; auto. now apply wf_sp_struct.
+  intros WX WY Hs HP. apply canon_eq; auto. intros i _. apply den_perm; auto. now apply (wf_sp_struct isz).
 Qed.
 
 (* order independence of ANY binary operation that is denotationally correct *)
@@ -65,8 +65,8 @@ Proof.
   - apply canon_eq; auto. congruence.
   - apply (canon_unique v0 isz isz_spec); auto. intros i.
     destruct (inb (sshape (op A B)) i) eqn:Hi; [now apply E|].
-    rewrite (den_out v0 (op A B) i) by (auto using wf_sp_struct).
-    rewrite (den_out v0 (op A' B') i); auto using wf_sp_struct. congruence.
+    rewrite (den_out v0 (op A B) i); [|apply (wf_sp_struct isz); auto|auto].
+    rewrite (den_out v0 (op A' B') i); [auto|apply (wf_sp_struct isz); auto|congruence].
 Qed.
 
 Theorem order_indep1 (op : sparse V -> sparse V) (g : V -> V) :
@@ -84,8 +84,8 @@ Proof.
   - apply canon_eq; auto. congruence.
   - apply (canon_unique v0 isz isz_spec); auto. intros i.
     destruct (inb (sshape (op A)) i) eqn:Hi; [now apply E|].
-    rewrite (den_out v0 (op A) i) by (auto using wf_sp_struct).
-    rewrite (den_out v0 (op A') i); auto using wf_sp_struct. congruence.
+    rewrite (den_out v0 (op A) i); [|apply (wf_sp_struct isz); auto|auto].
+    rewrite (den_out v0 (op A') i); [auto|apply (wf_sp_struct isz); auto|congruence].
 Qed.
 
 End C06.
@@ -99,3 +99,115 @@ Theorem mul_asis_order_dependent :
 Proof.
   split; [apply perm_swap|]. eexists; eexists. split; [reflexivity|]. split; [reflexivity|]. vm_compute. discriminate.
 Qed.
+
+(* ------------------------------------------------------------------------------------------ *)
+(* instances: every modelled sparse-returning operator is order-independent and well-formed     *)
+(* ------------------------------------------------------------------------------------------ *)
+Section Instances.
+Context {V : Type} (v0 : V) (isz : V -> bool).
+Hypothesis isz_spec : forall v, isz v = true <-> v = v0.
+Variables (one : V) (vadd vmul : V -> V -> V) (vopp : V -> V).
+Hypothesis one_nz : one <> v0.
+Hypothesis vadd_0_l : forall x, vadd v0 x = x.
+Hypothesis vadd_0_r : forall x, vadd x v0 = x.
+Hypothesis vopp_nz : forall v, v <> v0 -> vopp v <> v0.
+Hypothesis vopp_0 : vopp v0 = v0.
+Hypothesis vmul_0_l : forall x, vmul v0 x = v0.
+Hypothesis vmul_0_r : forall x, vmul x v0 = v0.
+Notation den := (den_sp v0).
+Notation wf := (wf_sp isz).
+Notation canon := (canon v0 isz).
+
+Definition indep2 (op : sparse V -> sparse V -> sparse V) : Prop :=
+  forall A A' B B', wf A -> wf A' -> wf B -> wf B' ->
+    sshape A' = sshape A -> sshape B = sshape A -> sshape B' = sshape A ->
+    Permutation (entries A) (entries A') -> Permutation (entries B) (entries B') ->
+    wf (op A B) /\ canon (op A B) = canon (op A' B') /\ Permutation (entries (op A B)) (entries (op A' B')).
+Definition indep1 (op : sparse V -> sparse V) : Prop :=
+  forall A A', wf A -> wf A' -> sshape A' = sshape A -> Permutation (entries A) (entries A') ->
+    wf (op A) /\ canon (op A) = canon (op A') /\ Permutation (entries (op A)) (entries (op A')).
+
+Lemma mk_indep2 op (f : V -> V -> V) :
+  (forall A B, wf A -> wf B -> sshape B = sshape A ->
+     wf (op A B) /\ sshape (op A B) = sshape A /\
+     forall i, inb (sshape A) i = true -> den (op A B) i = f (den A i) (den B i)) -> indep2 op.
+Proof.
+  intros H A A' B B' WA WA' WB WB' SA SB SB' PA PB. split; [now apply H|].
+  now apply (order_indep2 v0 isz isz_spec op f H).
+Qed.
+Lemma mk_indep1 op (g : V -> V) :
+  (forall A, wf A -> wf (op A) /\ sshape (op A) = sshape A /\
+     forall i, inb (sshape A) i = true -> den (op A) i = g (den A i)) -> indep1 op.
+Proof.
+  intros H A A' WA WA' SA PA. split; [now apply H|]. now apply (order_indep1 v0 isz isz_spec op g H).
+Qed.
+Ltac weaken H := intros; destruct H as (W_ & S_ & D_); (split; [exact W_|split; [exact S_|intros; apply D_]]).
+
+Theorem indep_add : indep2 (impl_add v0 isz vadd).
+Proof. apply (mk_indep2 _ vadd). intros A B WA WB Hs. weaken (impl_add_correct v0 isz isz_spec vadd vadd_0_l vadd_0_r A B WA WB Hs). Qed.
+Theorem indep_sub : indep2 (impl_sub v0 isz vadd vopp).
+Proof.
+  apply (mk_indep2 _ (fun a b => vadd a (vopp b))). intros A B WA WB Hs.
+  weaken (impl_sub_correct v0 isz isz_spec vadd vopp vadd_0_l vadd_0_r vopp_nz vopp_0 A B WA WB Hs).
+Qed.
+Theorem indep_mul : indep2 (impl_mul v0 isz vmul).
+Proof. apply (mk_indep2 _ vmul). intros A B WA WB Hs. weaken (impl_mul_correct v0 isz isz_spec vmul vmul_0_l vmul_0_r A B WA WB Hs). Qed.
+Theorem indep_and : indep2 (impl_and v0 isz one).
+Proof.
+  apply (mk_indep2 _ (fun a b => bval v0 one (negb (isz a) && negb (isz b)))). intros A B WA WB Hs.
+  weaken (impl_and_correct v0 isz isz_spec one A B WA WB Hs).
+Qed.
+Theorem indep_or : indep2 (impl_or v0 isz one).
+Proof.
+  apply (mk_indep2 _ (fun a b => bval v0 one (negb (isz a) || negb (isz b)))). intros A B WA WB Hs.
+  weaken (impl_or_correct v0 isz isz_spec one A B WA WB Hs).
+Qed.
+Theorem indep_xor : indep2 (impl_xor v0 isz one).
+Proof.
+  apply (mk_indep2 _ (fun a b => bval v0 one (xorb (negb (isz a)) (negb (isz b))))). intros A B WA WB Hs.
+  weaken (impl_xor_correct v0 isz isz_spec one A B WA WB Hs).
+Qed.
+Theorem indep_cmp cmp : indep2 (impl_cmp v0 one cmp).
+Proof.
+  apply (mk_indep2 _ (fun a b => bval v0 one (cmp a b))). intros A B WA WB Hs.
+  exact (impl_cmp_correct v0 isz isz_spec one one_nz cmp A B WA WB Hs).
+Qed.
+Theorem indep_neg : indep1 (impl_neg vopp).
+Proof. apply (mk_indep1 _ vopp). intros A WA. weaken (impl_neg_correct v0 isz isz_spec vopp vopp_nz vopp_0 A WA). Qed.
+Theorem indep_not : indep1 (impl_not one).
+Proof. apply (mk_indep1 _ (fun a => bval v0 one (isz a))). intros A WA. exact (impl_not_correct v0 isz isz_spec one A one_nz WA). Qed.
+Theorem indep_ones : indep1 (impl_ones one).
+Proof. apply (mk_indep1 _ (fun a => bval v0 one (negb (isz a)))). intros A WA. weaken (impl_ones_correct v0 isz isz_spec one A one_nz WA). Qed.
+Theorem indep_elemfun g : indep1 (impl_elemfun isz g).
+Proof. apply (mk_indep1 _ (fun a => if isz a then v0 else g a)). intros A WA. weaken (impl_elemfun_correct v0 isz isz_spec g A WA). Qed.
+Theorem indep_mul_scalar c : indep1 (fun A => impl_mul_scalar isz vmul A c).
+Proof. apply (mk_indep1 _ (fun a => vmul a c)). intros A WA. weaken (impl_mul_scalar_correct v0 isz isz_spec vmul vmul_0_l A c WA). Qed.
+Theorem indep_mul_dense T : indep1 (fun A => impl_mul_dense v0 isz vmul A T).
+Proof.
+  intros A A' WA WA' SA PA.
+  destruct (impl_mul_dense_correct v0 isz isz_spec vmul vmul_0_l A T WA) as (W1 & S1 & D1).
+  destruct (impl_mul_dense_correct v0 isz isz_spec vmul vmul_0_l A' T WA') as (W2 & S2 & D2).
+  assert (E : forall i, den (impl_mul_dense v0 isz vmul A T) i = den (impl_mul_dense v0 isz vmul A' T) i).
+  { intros i. rewrite D1, D2. now rewrite (den_perm v0 A A' (wf_sp_struct isz A WA) PA i). }
+  split; [exact W1|split].
+  - apply (canon_eq v0 isz); auto; congruence.
+  - now apply (canon_unique v0 isz isz_spec).
+Qed.
+Theorem indep_cmp_scalar cmp c : indep1 (fun A => impl_cmp_scalar v0 one cmp A c).
+Proof. apply (mk_indep1 _ (fun a => bval v0 one (cmp a c))). intros A WA. exact (impl_cmp_scalar_correct v0 isz isz_spec one one_nz cmp A c WA). Qed.
+Theorem indep_cmp_dense cmp T : indep1 (fun A => impl_cmp_dense v0 one cmp A T).
+Proof.
+  intros A A' WA WA' SA PA.
+  destruct (impl_cmp_dense_correct v0 isz isz_spec one one_nz cmp A T WA) as (W1 & S1 & D1).
+  destruct (impl_cmp_dense_correct v0 isz isz_spec one one_nz cmp A' T WA') as (W2 & S2 & D2).
+  assert (E : forall i, inb (sshape (impl_cmp_dense v0 one cmp A T)) i = true ->
+                        den (impl_cmp_dense v0 one cmp A T) i = den (impl_cmp_dense v0 one cmp A' T) i).
+  { intros i Hi. rewrite S1 in Hi. rewrite D1, D2 by congruence. now rewrite (den_perm v0 A A' (wf_sp_struct isz A WA) PA i). }
+  split; [exact W1|split].
+  - apply (canon_eq v0 isz); auto; congruence.
+  - apply (canon_unique v0 isz isz_spec); auto. intros i.
+    destruct (inb (sshape (impl_cmp_dense v0 one cmp A T)) i) eqn:Hi; [now apply E|].
+    rewrite (den_out v0 (impl_cmp_dense v0 one cmp A T) i); [|apply (wf_sp_struct isz); auto|auto].
+    rewrite (den_out v0 (impl_cmp_dense v0 one cmp A' T) i); [auto|apply (wf_sp_struct isz); auto|congruence].
+Qed.
+End Instances.
